@@ -149,6 +149,9 @@ type RecBackend struct {
 	wg         sync.WaitGroup
 	Baseline   int // runtime.NumGoroutine() while no delivery goroutine exists
 	NoSync     bool // do not wait for delivery goroutines (leftovers of an earlier, broken conversation exist)
+	// PanicAt makes the n-th (1-based) call of the named callback ("mail", "rcpt", "reset") panic.
+	PanicAt  map[string]int
+	nCalls   map[string]int
 	// Gate, if set, is called at named points ("data-begin", "data-return") and may block.
 	Gate func(point string, n int)
 	nData int
@@ -286,7 +289,26 @@ func smtpGoroutinesAlive() bool {
 
 type recSession struct{ b *RecBackend }
 
-func (s *recSession) Reset()        { s.b.add(L(A("reset"))) }
+func (s *recSession) Reset() {
+	s.b.add(L(A("reset")))
+	s.b.maybePanic("reset")
+}
+
+func (b *RecBackend) maybePanic(cb string) {
+	if b.PanicAt == nil {
+		return
+	}
+	b.mu.Lock()
+	if b.nCalls == nil {
+		b.nCalls = map[string]int{}
+	}
+	b.nCalls[cb]++
+	hit := b.PanicAt[cb] == b.nCalls[cb]
+	b.mu.Unlock()
+	if hit {
+		panic("verif: scripted backend panic in " + cb)
+	}
+}
 func (s *recSession) Logout() error { s.b.add(L(A("logout"))); return nil }
 
 func optStr(p *string) *Sx {
@@ -298,6 +320,7 @@ func optStr(p *string) *Sx {
 
 func (s *recSession) Mail(from string, o *smtp.MailOptions) error {
 	e := s.b.popErr(&s.b.script.Mail)
+	defer s.b.maybePanic("mail")
 	s.b.add(L(A("mail"), XS(from),
 		L(A("mo"), XS(string(o.Body)), Num(o.Size), B(o.RequireTLS), B(o.UTF8), XS(string(o.Return)), XS(o.EnvelopeID), optStr(o.Auth)),
 		e.Sx()))
@@ -306,6 +329,7 @@ func (s *recSession) Mail(from string, o *smtp.MailOptions) error {
 
 func (s *recSession) Rcpt(to string, o *smtp.RcptOptions) error {
 	e := s.b.popErr(&s.b.script.Rcpt)
+	defer s.b.maybePanic("rcpt")
 	n := L()
 	for _, v := range o.Notify {
 		n.Add(XS(string(v)))
